@@ -229,6 +229,10 @@ def gen_program(rng, managers, length, max_depth):
             depth -= d
         elif r < 0.93:
             ev.append(['propagate'])
+        elif r < 0.96 and depth > 0 and 'timeit' in managers:
+            # the public TimeIt.end() called inside the block: timing stops early, the
+            # scope itself (what the enclosing timing context is) must still unwind
+            ev.append(['tend'])
         else:
             ev.append(['probe'])
     return ev
@@ -648,6 +652,7 @@ def _run(case, sim, clock):
             frames = []       # reference stack: (mgr, args)
             live = []         # real side: (mgr, args, cm, timeit_node)
             timing_roots = []
+            ended_early = set()   # ids of TimeIt nodes stopped by end() inside their block
             base = None
 
             last = {'switches': -1}
@@ -720,7 +725,7 @@ def _run(case, sim, clock):
                     if r:
                         bad('C17.swallowed', mgr, f'{mgr} swallowed the exception', ti, -1)
                 if mgr == 'timeit':
-                    _check_timeit_closed(node, exc, bad, ti)
+                    _check_timeit_closed(node, None if id(node) in ended_early else exc, bad, ti)
 
             def _body(env, is_t0, frames, live, timing_roots, check, do_exit):
                 base = check('before-first-enter', -1)
@@ -808,6 +813,12 @@ def _run(case, sim, clock):
                             except Unwind as ex:
                                 for _ in range(d):
                                     do_exit(ex)
+                    elif kind == 'tend':
+                        tn = next((n for m_, _, _, n in reversed(live) if m_ == 'timeit'), None)
+                        if tn is not None and not tn.has_ended:
+                            fault('timeit_ended_inside_block')
+                            ended_early.add(id(tn))
+                            tn.end()
                     elif kind == 'propagate':
                         # explicit propagation of contextual overrides into another task
                         exp_now = expected(frames, shared, is_t0, case.get('process_wide', ()))
@@ -865,7 +876,8 @@ def _run(case, sim, clock):
                         break
                 if not violations:
                     for root in timing_roots:
-                        _check_timeit_tree(root, bad, ti, clock_monotone=True)
+                        _check_timeit_tree(root, bad, ti, clock_monotone=True,
+                                           ended_early=ended_early)
             try:
                 _body(env, is_t0, frames, live, timing_roots, check, do_exit)
             finally:
@@ -929,17 +941,17 @@ def _check_timeit_closed(node, exc, bad, ti):
             f'timeit({node.name!r}) has_error={node.has_error} after exit with exc={exc!r}', ti, -1)
 
 
-def _check_timeit_tree(node, bad, ti, clock_monotone):
+def _check_timeit_tree(node, bad, ti, clock_monotone, ended_early=()):
     st = node.status()
     for k, s in st.items():
         if not s.has_ended:
             bad('C17.timeit', 'status-not-ended', f'status {k!r} not ended', ti, -1)
     for c in node.children:
-        if clock_monotone and not (node.start_time <= c.start_time <= c.end_time <= node.end_time):
+        if clock_monotone and id(node) not in ended_early and not (node.start_time <= c.start_time <= c.end_time <= node.end_time):
             bad('C17.timeit', 'child-outside-parent',
                 f'child {c.name!r} [{c.start_time},{c.end_time}] outside parent '
                 f'{node.name!r} [{node.start_time},{node.end_time}]', ti, -1)
-        _check_timeit_tree(c, bad, ti, clock_monotone)
+        _check_timeit_tree(c, bad, ti, clock_monotone, ended_early)
 
 
 # ---------------------------------------------------------------------------
